@@ -118,6 +118,7 @@ struct TestFn
         case 7: return ((*counter)++ % 2 == 0) ? T(1) : T(-1);                  // alternating: exact zero mean for even N (weight 1)
         case 8: return ((*counter)++ % 3 == 0) ? std::numeric_limits<T>::infinity() : T(0); // zero or infinite
         case 9: return (x0 > T(0.85)) ? std::numeric_limits<T>::quiet_NaN() : ((x0 < T(0.1)) ? T(0) : scale * (T(1) + xl)); // zero / finite / non-finite by region
+        case 11: return (x0 < T(0.9)) ? T(0) : scale * (T(1) + xl);            // mostly zero: short iterations carry no information
         default: return T(0);                                                   // identically zero
         }
     }
